@@ -196,6 +196,8 @@ pub const X_TRANS: u32 = 500;  // body of ordinary transition k: 500 + k
 pub const TOK_G: u32 = 2000;
 pub const TOK_EV: u32 = 3000;
 pub const TOK_DI: u32 = 4000;
+pub const TOK_INV: u32 = 5000;   // start of invoke k (document order over the whole model): 5000 + k
+pub const X_FIN: u32 = 800;      // finalize body of invoke k: 800 + k
 
 pub struct Model {
     pub sh: Shape,
@@ -315,7 +317,11 @@ impl Datamodel for VDm {
     fn get_by_location(&mut self, _l: &str) -> Result<DataArc, String> { Err(String::new()) }
     fn clear(&mut self) {}
     fn log(&mut self, _m: &str) {}
-    fn execute(&mut self, _s: &Data) -> Result<DataArc, String> { Err(String::new()) }
+    fn execute(&mut self, s: &Data) -> Result<DataArc, String> {
+        // C14: the `typeexpr` of invoke k carries source id TOK_INV + k: evaluating it marks the start of that invoke in the log
+        if let Data::Source(c) = s { let id = c.source_id as u32; if id >= TOK_INV && id < TOK_INV + 100 { self.log.push(id); return Ok(create_data_arc(Data::String("scxml".to_string()))); } }
+        Err(String::new())
+    }
     fn execute_for_each(&mut self, _a: &Data, _i: &str, _x: &str, _b: &mut dyn FnMut(&mut dyn Datamodel) -> bool) -> bool { true }
     fn execute_condition(&mut self, s: &Data) -> Result<bool, String> {
         let tid = match s { Data::Source(c) => c.source_id as u32, _ => 0 };
@@ -664,7 +670,7 @@ impl<'a> Ref<'a> {
         out
     }
 
-    fn absorb(&self, r: &RefOut, out: &mut RunOut, queue: &mut Vec<u32>, effects: &[(u32, u32)], raise_cap: u32, bodies: &mut u32) {
+    pub fn absorb(&self, r: &RefOut, out: &mut RunOut, queue: &mut Vec<u32>, effects: &[(u32, u32)], raise_cap: u32, bodies: &mut u32) {
         for &tok in &r.log {
             if tok >= MARK_DONE { queue.push(100 + (tok - MARK_DONE)); continue; }
             out.log.push(tok);
